@@ -59,6 +59,10 @@ type Net struct {
 	// connection refused).
 	OnDial func(hostport string, server *StreamConn) error
 	Dials  int
+	// PollBlocks, when it returns true for a socket, makes a poll of that socket's
+	// error queue that finds nothing wait for its timeout (in bubble time), as the
+	// real poll(2) does.
+	PollBlocks func(c *UDPConn) bool
 }
 
 var cur atomic.Pointer[Net]
